@@ -32,9 +32,21 @@ def _solve_one(job):
         res, info = "error", repr(e)
     if res in ("unknown", "error") and use_cvc5 and os.path.exists(CVC5):
         try:
+            text = smt2
+            if "(lambda" in text:
+                # z3 prints list concatenations as array lambdas; `select` of a lambda is not SMT-LIB: beta-reduce with z3's simplifier
+                try:
+                    s0 = z3.Solver()
+                    s0.from_string(smt2)
+                    s1 = z3.Solver()
+                    for a in s0.assertions():
+                        s1.add(z3.simplify(a))
+                    text = s1.to_smt2()
+                except Exception:  # noqa
+                    text = smt2
             with tempfile.NamedTemporaryFile("w", suffix=".smt2", delete=False) as f:
-                logic = "HO_ALL" if "(lambda" in smt2 else "ALL"
-                f.write(f"(set-logic {logic})\n" + smt2 + ("\n(check-sat)\n" if "(check-sat)" not in smt2 else ""))
+                logic = "HO_ALL" if "(lambda" in text else "ALL"
+                f.write(f"(set-logic {logic})\n" + text + ("\n(check-sat)\n" if "(check-sat)" not in text else ""))
                 path = f.name
             cmd = [CVC5, "--lang=smt2", f"--tlimit={CVC5_TIMEOUT_S * 1000}"]
             if strings:
